@@ -425,6 +425,7 @@ W_HANDLE_SEVERAL = Contract(
             "hl_get(tr.hl, 'content-length') == str(content_length)", "hl_has(tr.hl, 'content-length')"],
     },
     assumptions=["A-fs-1", "A-fs-2", "A-server", "A-status-table", "A-list-headers", "A-random", "A-fold-ext"],
+    cuts={"boundary": ["len(boundary) == 13", "not unclean(boundary)"]},
 )
 
 
@@ -873,6 +874,7 @@ A_HANDLE_SEVERAL = Contract(
                     "out.phase == 0", "out.n_parts == IDX", "not out.closed", "out.n_body >= 0",
                     "out.out_len == sum_upto(IDX, ((len(part_header(boundary, self.content_type, file_size, s, e)) + (e - s) + 1) for s, e in ranges))"]},
     assumptions=["A-fs-1", "A-fs-2", "A-server", "A-list-headers", "A-random", "A-fold-ext"],
+    cuts={"boundary": ["len(boundary) == 13", "not unclean(boundary)"]},
 )
 A_HANDLE_SEVERAL.emit_mode = "multipart"
 
